@@ -446,10 +446,12 @@ class CphotAng:
 
         athetaj = jjstep[:, 1:] - 0.5
         athetaj = np.arctan2(athetaj, DistStep[:, None], dtype=self.dtype)
-        athetaj = 2.0 * (1.0 - np.cos(athetaj, dtype=self.dtype))
+        # 2(1 - cos x) written as 4 sin^2(x/2): the small ring angles cancel
+        # catastrophically in single precision otherwise
+        athetaj = 4.0 * np.sin(athetaj / 2.0, dtype=self.dtype) ** 2
 
         sthetaj = np.arctan2(jjstep, DistStep[:, None], dtype=self.dtype)
-        sthetaj = 2.0 * (1.0 - np.cos(sthetaj, dtype=self.dtype))
+        sthetaj = 4.0 * np.sin(sthetaj / 2.0, dtype=self.dtype) ** 2
 
         # c     Calc ang spread ala Hillas
         # plus 3 to convert to MeV and minus 2 to end the integral early (3-2=1)
